@@ -25,9 +25,11 @@ class VClock:
         self.reads = 0
         self.sleeps = 0
         self.on_sleep = None
+        self.frozen = False
 
     def time(self):
-        self.reads += 1
+        if not self.frozen:
+            self.reads += 1
         return BASE + self.adv + self.reads * EPS
 
     def peek(self):
@@ -53,7 +55,7 @@ class VClock:
 class Controller:
     """Receives every seam event.  Subclasses override event(); default is a no-op."""
 
-    def event(self, kind, label):
+    def event(self, kind, label, con=None):
         pass
 
 
@@ -90,7 +92,7 @@ class Seams:
 
         class HookConn(_sqlite3.Connection):
             def execute(self, sql, *args):
-                seams.ctl.event('sql', sql)
+                seams.ctl.event('sql', sql, self)
                 return _sqlite3.Connection.execute(self, sql, *args)
 
         def connect(*args, **kwargs):
